@@ -10,8 +10,8 @@ Definition started (x : pst) : bool :=
 Ltac simp_state :=
   cbn [pay run_ guard pids rids thr_tids inside set_pay set_run set_guard set_thr set_inside
        p_st p_flav p_owner p_origin p_tid p_loop p_starts p_cancels p_cleans p_adopting p_exec_ret
-       with_st with_phase with_running with_shut with_trigger with_sigint with_failure with_home set_home
-       r_phase r_running r_shut_req r_shut_ret r_failures r_basefail r_failed_up r_trigger r_sigint
+       with_st with_phase with_running with_shut with_trigger with_sigint with_failure with_loopkill with_home set_home
+       r_phase r_running r_shut_req r_shut_ret r_failures r_basefail r_failed_up r_trigger r_sigint r_loopkill
        r_home_aio r_home_trio] in *.
 
 (* break a successful step into its cases *)
@@ -139,12 +139,12 @@ Qed.
 Lemma inv_AcceptEnd s r o s' :
   step s (AcceptEnd r o) = Some s' ->
   accept_end_ok (run_ s r) o = true /\
-  (phase_closing (r_phase (run_ s r)) = true -> settled s r = true) /\
+  (phase_closing (r_phase (run_ s r)) = true -> r_loopkill (run_ s r) = false -> settled s r = true) /\
   guard s' = release (guard s) r /\ run_ s' = upd (run_ s) r (with_phase (run_ s r) (Ended o)).
 Proof.
   intros H. step_inv H; simp_state.
   apply andb_prop in E. destruct E as [E1 E2]. split; [exact E1|]. split; [|auto].
-  intros Hc. rewrite Hc in E2. cbn in E2. exact E2.
+  intros Hc Hk. rewrite Hc, Hk in E2. cbn in E2. rewrite orb_false_r in E2. exact E2.
 Qed.
 
 Lemma inv_RunningSet s r s' :
@@ -188,7 +188,7 @@ Lemma inv_Finish s p o s' :
   let i := pay s p in let r := p_owner i in
   p_st i = PRun /\ guard s' = guard s /\ pay s' = upd (pay s) p (with_st i (PDone o))
   /\ mem p (inside s) = false
-  /\ (coroutine (p_flav i) = true -> phase_ended (r_phase (run_ s r)) = false)
+  /\ (coroutine (p_flav i) = true -> may_act (run_ s r) (p_flav i) = true)
   /\ thr_tids s' = thr_tids s /\ inside s' = inside s
   /\ ((run_ s' = run_ s /\ (is_exec (p_origin i) = true \/ phase_live (r_phase (run_ s r)) = false))
       \/ (is_exec (p_origin i) = false /\ phase_live (r_phase (run_ s r)) = true
@@ -197,13 +197,13 @@ Proof.
   intros H. step_inv H; simp_state.
   - apply orb_false_elim in E0. destruct E0 as [Ea Eb].
     repeat split; auto.
-    intros Hc. rewrite Hc in Ea. exact Ea.
+    intros Hc. rewrite Hc in Ea. cbn in Ea. apply negb_false_iff in Ea. exact Ea.
     left. split; auto. apply orb_prop in E1. destruct E1 as [E1|E1]; auto.
     right. destruct (phase_live _); [discriminate|reflexivity].
   - apply orb_false_elim in E0. destruct E0 as [Ea Eb].
     apply orb_false_elim in E1. destruct E1 as [Ec Ed].
     repeat split; auto.
-    intros Hc. rewrite Hc in Ea. exact Ea.
+    intros Hc. rewrite Hc in Ea. cbn in Ea. apply negb_false_iff in Ea. exact Ea.
     right. repeat split; auto. destruct (phase_live _); [reflexivity|discriminate].
 Qed.
 
@@ -211,13 +211,14 @@ Qed.
 Definition same_but_home (a b : rinfo) : Prop :=
   r_phase a = r_phase b /\ r_running a = r_running b /\ r_shut_req a = r_shut_req b
   /\ r_shut_ret a = r_shut_ret b /\ r_failures a = r_failures b /\ r_basefail a = r_basefail b
-  /\ r_failed_up a = r_failed_up b /\ r_trigger a = r_trigger b /\ r_sigint a = r_sigint b.
+  /\ r_failed_up a = r_failed_up b /\ r_trigger a = r_trigger b /\ r_sigint a = r_sigint b
+  /\ r_loopkill a = r_loopkill b.
 
 Lemma same_but_home_refl a : same_but_home a a.
-Proof. unfold same_but_home; auto 10. Qed.
+Proof. unfold same_but_home; auto 12. Qed.
 
 Lemma same_but_home_set a f h : same_but_home (set_home a f h) a.
-Proof. destruct f; unfold same_but_home; cbn; auto 10. Qed.
+Proof. destruct f; unfold same_but_home; cbn; auto 12. Qed.
 
 Lemma inv_Start_run s p f tid loop other ok s' :
   step s (Start p f tid loop other ok) = Some s' ->
@@ -236,7 +237,7 @@ Lemma inv_Start_pay s p f tid loop other ok s' :
   step s (Start p f tid loop other ok) = Some s' ->
   let i := pay s p in
   started (p_st i) = false /\ f = p_flav i /\ ok = true /\
-  exists r, phase_live (r_phase (run_ s r)) = true
+  exists r, may_start (run_ s r) f = true
     /\ (p_st i = PUnit -> guard s = Some r) /\ (p_st i <> PUnit -> r = p_owner i)
     /\ (p_st i = PUnit \/ p_st i = PReg \/ p_st i = PExecPending)
     /\ pay s' = upd (pay s) p (mkP PRun f r (p_origin i) tid loop (S (p_starts i)) (p_cancels i) (p_cleans i)
